@@ -227,7 +227,7 @@ def run_one(s):
             pe["anim"], pe["anim_exc"] = [], "none"
             # (not when the animation variable drives a quarter-turn rotation: the denotation knows whole quarter turns only)
             if len(rest) == 1 and not any(('"k": "%s"' % kk) in __import__("json").dumps(e) for kk in ("bd", "bdl", "bdr", "prod", "point")) \
-                    and ('"an": "%s"' % rest[0]) not in __import__("json").dumps(e):
+                    and ('"an": "%s"' % rest[0]) not in __import__("json").dumps(e) and ('"an2": "%s"' % rest[0]) not in __import__("json").dumps(e):
                 an = rest[0]
 
                 def anim():
